@@ -102,7 +102,7 @@ def main():
                         ctx.extra["changed_anchor_lines"] = {os.path.relpath(f, os.path.realpath(repo)): sorted(ls)[:50]
                                                               for f, ls in chg.items()}
                         u = unreached()
-                        if u and ctx.time_left() > 30 and not ctx.s_violations:
+                        if u and getattr(mod, "ESCALATE", True) and ctx.time_left() > 30 and not ctx.s_violations:
                             import random as _r
                             ctx.rng = _r.Random(ctx.seed + 7919)
                             ctx.count("escalation_rounds")
